@@ -1,7 +1,7 @@
 (* Totality of the decoders of model/Codec.v (property C10): which decoders can
    never panic, and for those that can, exactly which inputs are outside the
    panic class. *)
-From Saito Require Import Base Bytes BytesProofs Codec CodecProofs.
+From Saito Require Import Base Bytes BytesProofs Codec CodecProofs CodecMsgProofs.
 
 Open Scope N_scope.
 
@@ -27,10 +27,10 @@ Ltac sl_step :=
   match goal with
   | |- context [sl ?s ?a ?b ?l] =>
       let x := fresh "x" in let E := fresh "E" in
-      destruct (sl_in_range s a b l) as [x E]; [lia|lia|]; rewrite E; cbn [bind]
+      destruct (sl_in_range s a b l) as [x E]; [lia|lia|]; rewrite E, bind_Ok; cbv beta
   | |- context [ix ?s ?i ?l] =>
       let x := fresh "x" in let E := fresh "E" in
-      destruct (ix_in_range s i l) as [x E]; [lia|]; rewrite E; cbn [bind]
+      destruct (ix_in_range s i l) as [x E]; [lia|]; rewrite E, bind_Ok; cbv beta
   end.
 
 (* ------------------------------------------------------------------ *)
@@ -178,4 +178,508 @@ Proof.
   apply bind_ok_no_panic;
     [apply dec_items_fuel_ok; [discriminate|lia|intro; apply hop_total|apply Hfuel; lia]|intro path].
   discriminate.
+Qed.
+
+(* ------------------------------------------------------------------ *)
+(* slices of slices, slices of truncated buffers                       *)
+(* ------------------------------------------------------------------ *)
+
+Lemma slice_slice s e l x a b :
+  slice s e l = Some x -> a <= b -> b <= e - s -> slice a b x = slice (s + a) (s + b) l.
+Proof.
+  intros H Hab Hb. apply slice_some in H as (H1 & H2 & ->).
+  unfold slice. rewrite Nlen_firstn, Nlen_skipn.
+  replace ((a <=? b) && (b <=? N.min (N.of_nat (N.to_nat (e - s))) (Nlen l - N.of_nat (N.to_nat s)))) with true by lia.
+  replace ((s + a <=? s + b) && (s + b <=? Nlen l)) with true by lia.
+  f_equal. rewrite skipn_firstn_comm, firstn_firstn, skipn_add.
+  f_equal; [lia|]. f_equal. lia.
+Qed.
+
+Lemma sl_firstn_fits site a b k l :
+  b <= N.of_nat k -> sl site a b (firstn k l) = sl site a b l.
+Proof. intro H. unfold sl. now rewrite slice_firstn_fits. Qed.
+
+(* ------------------------------------------------------------------ *)
+(* Block: total                                                        *)
+(* ------------------------------------------------------------------ *)
+
+Lemma dec_block_txs_total bs : forall fuel n start s,
+  Nlen bs < start + (N.of_nat fuel + 1) * 93 ->
+  dec_block_txs fuel n start bs <> Panic s.
+Proof.
+  induction fuel as [|fuel IH]; intros n start s Hf.
+  - cbn [dec_block_txs]. destruct (n =? 0); [discriminate|].
+    destruct (Nlen bs <? start + 16) eqn:E16; [discriminate|].
+    do 4 sl_step.
+    destruct (two32 <=? be_dec x + be_dec x0); [discriminate|].
+    match goal with |- context [Nlen bs <? ?e] => destruct (Nlen bs <? e) eqn:Eend; [discriminate|] end.
+    unfold TRANSACTION_SIZE in *. exfalso. lia.
+  - cbn [dec_block_txs]. destruct (n =? 0); [discriminate|].
+    destruct (Nlen bs <? start + 16) eqn:E16; [discriminate|].
+    do 4 sl_step.
+    destruct (two32 <=? be_dec x + be_dec x0); [discriminate|].
+    match goal with |- context [Nlen bs <? ?e] => destruct (Nlen bs <? e) eqn:Eend; [discriminate|] end.
+    unfold TRANSACTION_SIZE, SLIP_SIZE, HOP_SIZE in *.
+    sl_step.
+    apply bind_ok_no_panic.
+    + (* the transaction slice has exactly the length its header declares *)
+      apply tx_total_guarded. unfold known_c10_tx, tx_declared_size, TRANSACTION_SIZE, SLIP_SIZE, HOP_SIZE.
+      apply sl_ok in E, E0, E1, E2, E3.
+      pose proof (slice_Nlen _ _ _ _ E3) as L3.
+      rewrite (slice_slice _ _ _ _ 0 4 E3), (slice_slice _ _ _ _ 4 8 E3),
+              (slice_slice _ _ _ _ 8 12 E3), (slice_slice _ _ _ _ 12 16 E3) by lia.
+      replace (start + 0) with start by lia.
+      rewrite E, E0, E1, E2. lia.
+    + intro t. apply bind_ok_no_panic; [|discriminate]. apply IH.
+      replace (N.of_nat (S fuel) + 1) with (1 + (N.of_nat fuel + 1)) in Hf by lia.
+      rewrite N.mul_add_distr_r in Hf. lia.
+Qed.
+
+Lemma block_total bs s : decode_block bs <> Panic s.
+Proof.
+  unfold decode_block, BLOCK_HEADER_SIZE.
+  destruct (Nlen bs <? 389) eqn:EL; [discriminate|].
+  do 33 sl_step.
+  apply bind_ok_no_panic; [|discriminate].
+  apply dec_block_txs_total. unfold Nlen. lia.
+Qed.
+
+(* ------------------------------------------------------------------ *)
+(* Version, services, handshake, blockchain request: total             *)
+(* ------------------------------------------------------------------ *)
+
+Lemma version_total bs s : decode_version bs <> Panic s.
+Proof.
+  unfold decode_version, get_or_err. destruct (Nlen bs <? 4); [discriminate|].
+  destruct (index 0 bs); cbn [bind]; [|discriminate].
+  destruct (index 1 bs); cbn [bind]; [|discriminate].
+  destruct (index 2 bs); cbn [bind]; [|discriminate].
+  destruct (index 3 bs); cbn [bind]; discriminate.
+Qed.
+
+Lemma service_total str s : decode_service str <> Panic s.
+Proof.
+  unfold decode_service. destruct (split_on CH_BAR str) as [|a [|b [|c [|d l]]]]; discriminate.
+Qed.
+
+Lemma service_list_total segs s : decode_service_list segs <> Panic s.
+Proof.
+  induction segs as [|x segs IH]; cbn [decode_service_list]; [discriminate|].
+  destruct x; [assumption|].
+  apply bind_ok_no_panic; [apply service_total|intro v].
+  apply bind_ok_no_panic; [assumption|discriminate].
+Qed.
+
+Lemma services_total bs s : decode_services bs <> Panic s.
+Proof.
+  unfold decode_services. destruct (Nlen bs =? 0); [discriminate|].
+  destruct (negb (utf8_valid bs)); [discriminate|]. apply service_list_total.
+Qed.
+
+Lemma hs_challenge_total bs s : decode_hs_challenge bs <> Panic s.
+Proof.
+  unfold decode_hs_challenge. destruct (Nlen bs <? 32) eqn:E; [discriminate|].
+  destruct (sl_in_range 601 0 32 bs) as [x Ex]; [lia|lia|]. rewrite Ex. discriminate.
+Qed.
+
+Lemma hs_response_total bs s : decode_hs_response bs <> Panic s.
+Proof.
+  unfold decode_hs_response, HS_MIN_LEN. destruct (Nlen bs <? 142) eqn:EL; [discriminate|].
+  sl_step. apply bind_ok_no_panic; [apply version_total|intro cv].
+  sl_step. apply bind_ok_no_panic; [apply version_total|intro wv].
+  do 5 sl_step.
+  apply bind_ok_no_panic.
+  - destruct (0 <? be_dec x5); [|discriminate].
+    destruct (Nlen bs <? 142 + be_dec x5) eqn:EU; [discriminate|].
+    destruct (sl_in_range 708 142 (142 + be_dec x5) bs) as [u Eu]; [lia|lia|].
+    rewrite Eu. cbn [bind]. destruct (utf8_valid u); discriminate.
+  - intro url. apply bind_ok_no_panic; [|discriminate].
+    destruct (142 + be_dec x5 <? Nlen bs) eqn:ES; [|discriminate].
+    unfold sl_from. destruct (slice_from (142 + be_dec x5) bs) eqn:Esf.
+    + cbn [bind]. apply services_total.
+    + apply slice_from_none in Esf. lia.
+Qed.
+
+Lemma bc_request_total bs s : decode_bc_request bs <> Panic s.
+Proof.
+  unfold decode_bc_request. destruct (negb (Nlen bs =? 72)) eqn:EL; [discriminate|].
+  do 3 sl_step. discriminate.
+Qed.
+
+(* ------------------------------------------------------------------ *)
+(* ApiMessage, GoldenTicket, Wallet: refuted, guarded                  *)
+(* ------------------------------------------------------------------ *)
+
+Lemma api_total_refuted : exists bs site, decode_api bs = Panic site.
+Proof. exists [1; 2; 3], 1001. reflexivity. Qed.
+
+Lemma api_total_guarded bs s : known_c10_api bs = false -> decode_api bs <> Panic s.
+Proof.
+  unfold known_c10_api, decode_api. intro K.
+  sl_step. unfold sl_from. destruct (slice_from 4 bs) eqn:E4.
+  - discriminate.
+  - apply slice_from_none in E4. lia.
+Qed.
+
+Lemma api_guarded_total bs s : decode_api_guarded bs <> Panic s.
+Proof.
+  unfold decode_api_guarded. destruct (Nlen bs <? 4) eqn:E; [discriminate|].
+  apply api_total_guarded. unfold known_c10_api. assumption.
+Qed.
+
+Lemma gt_total_refuted : exists bs site, decode_gt bs = Panic site.
+Proof. exists (repeat 0 96), 1301. reflexivity. Qed.
+
+Lemma gt_total_guarded bs s : known_c10_gt bs = false -> decode_gt bs <> Panic s.
+Proof.
+  unfold known_c10_gt, decode_gt. intro K. destruct (negb (Nlen bs =? 97)) eqn:E; [discriminate|].
+  do 3 sl_step. discriminate.
+Qed.
+
+Lemma gt_panic_iff bs : (exists s, decode_gt bs = Panic s) <-> known_c10_gt bs = true.
+Proof.
+  split.
+  - intros (s & H). destruct (known_c10_gt bs) eqn:K; [reflexivity|].
+    exfalso. eapply gt_total_guarded; eauto.
+  - intro K. exists 1301. unfold decode_gt. unfold known_c10_gt in K. now rewrite K.
+Qed.
+
+Lemma wallet_total_refuted : exists bs site, decode_wallet bs = Panic site.
+Proof. exists (repeat 1 64), 1402. reflexivity. Qed.
+
+Lemma wallet_total_guarded bs s : known_c10_wallet bs = false -> decode_wallet bs <> Panic s.
+Proof.
+  unfold known_c10_wallet, decode_wallet, WALLET_SIZE. intro K. do 2 sl_step. discriminate.
+Qed.
+
+Lemma wallet_panic_iff bs : (exists s, decode_wallet bs = Panic s) <-> known_c10_wallet bs = true.
+Proof.
+  split.
+  - intros (s & H). destruct (known_c10_wallet bs) eqn:K; [reflexivity|].
+    exfalso. eapply wallet_total_guarded; eauto.
+  - intro K. unfold known_c10_wallet, WALLET_SIZE in K. unfold decode_wallet, sl.
+    destruct (slice 0 32 bs) eqn:E1; cbn [bind]; [|eauto].
+    destruct (slice 32 65 bs) eqn:E2; cbn [bind]; [|eauto].
+    apply slice_some in E2 as (_ & E2 & _). lia.
+Qed.
+
+(* ------------------------------------------------------------------ *)
+(* dec_chunks, GhostChainSync                                          *)
+(* ------------------------------------------------------------------ *)
+
+Lemma dec_chunks_no_panic {A} site size (f : list N -> A) buf : forall k i s,
+  (i + N.of_nat k) * size <= Nlen buf -> dec_chunks site size f k i buf <> Panic s.
+Proof.
+  induction k as [|k IH]; intros i s H; cbn [dec_chunks]; [discriminate|].
+  assert (H1 : (i + 1) * size <= (i + N.of_nat (S k)) * size) by (apply N.mul_le_mono_r; lia).
+  assert (H0 : i * size <= (i + 1) * size) by (apply N.mul_le_mono_r; lia).
+  destruct (sl_in_range site (i * size) ((i + 1) * size) buf) as [x E]; [lia|lia|].
+  rewrite E. cbn [bind].
+  apply bind_ok_no_panic; [|discriminate]. apply IH.
+  replace (i + 1 + N.of_nat k) with (i + N.of_nat (S k)) by lia. assumption.
+Qed.
+
+Lemma ghost_total_refuted : exists bs site, decode_ghost bs = Panic site.
+Proof. exists [1; 2; 3], 901. reflexivity. Qed.
+
+(* a count of 2^32-1 in a 36-byte message *)
+Lemma ghost_total_refuted_count :
+  exists site, decode_ghost (repeat 0 32 ++ [255; 255; 255; 255]) = Panic site.
+Proof. exists 904. vm_compute. reflexivity. Qed.
+
+Lemma ghost_total_guarded bs s : known_c10_ghost bs = false -> decode_ghost bs <> Panic s.
+Proof.
+  unfold known_c10_ghost, ghost_declared_size. intro K.
+  destruct (slice 32 36 bs) as [c|] eqn:Ec.
+  2:{ apply slice_none in Ec. lia. }
+  pose proof Ec as Ec'. apply slice_some in Ec' as (_ & L36 & _).
+  unfold decode_ghost.
+  sl_step. unfold sl at 1. rewrite Ec, bind_Ok. cbv beta.
+  set (count := be_dec c) in *.
+  destruct (sl_in_range 903 36 (Nlen bs) bs) as [buffer Eb]; [lia|lia|]. rewrite Eb, bind_Ok. cbv beta.
+  assert (Lb : Nlen buffer = Nlen bs - 36) by (apply sl_ok, slice_Nlen in Eb; assumption).
+  assert (Hk : N.of_nat (N.to_nat count) = count) by lia.
+  destruct (sl_in_range 904 0 (count * 32) buffer) as [b1 E1]; [lia|lia|]. rewrite E1, bind_Ok. cbv beta.
+  apply bind_ok_no_panic;
+    [apply dec_chunks_no_panic; apply sl_ok, slice_Nlen in E1; rewrite Hk; lia|intro v1].
+  destruct (sl_in_range 906 (count * 32) (count * 64) buffer) as [b2 E2]; [lia|lia|]. rewrite E2, bind_Ok. cbv beta.
+  apply bind_ok_no_panic;
+    [apply dec_chunks_no_panic; apply sl_ok, slice_Nlen in E2; rewrite Hk; lia|intro v2].
+  destruct (sl_in_range 908 (count * 64) (count * 72) buffer) as [b3 E3]; [lia|lia|]. rewrite E3, bind_Ok. cbv beta.
+  apply bind_ok_no_panic;
+    [apply dec_chunks_no_panic; apply sl_ok, slice_Nlen in E3; rewrite Hk; lia|intro v3].
+  destruct (sl_in_range 910 (count * 72) (count * 80) buffer) as [b4 E4]; [lia|lia|]. rewrite E4, bind_Ok. cbv beta.
+  apply bind_ok_no_panic;
+    [apply dec_chunks_no_panic; apply sl_ok, slice_Nlen in E4; rewrite Hk; lia|intro v4].
+  destruct (sl_in_range 912 (count * 80) (count * 81) buffer) as [b5 E5]; [lia|lia|]. rewrite E5, bind_Ok. cbv beta.
+  apply bind_ok_no_panic;
+    [apply dec_chunks_no_panic; apply sl_ok, slice_Nlen in E5; rewrite Hk; lia|intro v5].
+  destruct (sl_in_range 914 (count * 81) (count * 82) buffer) as [b6 E6]; [lia|lia|]. rewrite E6, bind_Ok. cbv beta.
+  apply bind_ok_no_panic;
+    [apply dec_chunks_no_panic; apply sl_ok, slice_Nlen in E6; rewrite Hk; lia|intro v6].
+  discriminate.
+Qed.
+
+(* ------------------------------------------------------------------ *)
+(* Message                                                             *)
+(* ------------------------------------------------------------------ *)
+
+Lemma message_total_refuted_tx : exists site, decode_message (4 :: tx_panic_witness) = Panic site.
+Proof. exists 309. vm_compute. reflexivity. Qed.
+
+Lemma message_total_refuted_ghost : exists site, decode_message [10; 1; 2; 3] = Panic site.
+Proof. exists 901. vm_compute. reflexivity. Qed.
+
+Lemma message_total_refuted : exists bs site, decode_message bs = Panic site.
+Proof. exists [10; 1; 2; 3], 901. vm_compute. reflexivity. Qed.
+
+Lemma message_body_total k p s :
+  (k = 4 -> known_c10_tx p = false) -> (k = 10 -> known_c10_ghost p = false) ->
+  decode_message_body k p <> Panic s.
+Proof.
+  intros K4 K10. unfold decode_message_body.
+  destruct (k =? 1); [apply bind_ok_no_panic; [apply hs_challenge_total|discriminate]|].
+  destruct (k =? 2); [apply bind_ok_no_panic; [apply hs_response_total|discriminate]|].
+  destruct (k =? 3); [apply bind_ok_no_panic; [apply block_total|discriminate]|].
+  destruct (k =? 4) eqn:E4;
+    [apply bind_ok_no_panic; [apply tx_total_guarded, K4; lia|discriminate]|].
+  destruct (k =? 5); [apply bind_ok_no_panic; [apply bc_request_total|discriminate]|].
+  destruct (k =? 6).
+  { destruct (negb (Nlen p =? 40)) eqn:EL; [discriminate|]. do 2 sl_step. discriminate. }
+  destruct (k =? 7); [discriminate|].
+  destruct (k =? 8); [discriminate|].
+  destruct (k =? 9); [apply bind_ok_no_panic; [apply services_total|discriminate]|].
+  destruct (k =? 10) eqn:E10;
+    [apply bind_ok_no_panic; [apply ghost_total_guarded, K10; lia|discriminate]|].
+  destruct (k =? 11).
+  { destruct (negb (Nlen p =? 72)) eqn:EL; [discriminate|]. do 3 sl_step. discriminate. }
+  destruct (k =? 12); [apply bind_ok_no_panic; [apply api_guarded_total|discriminate]|].
+  destruct (k =? 13); [apply bind_ok_no_panic; [apply api_guarded_total|discriminate]|].
+  destruct (k =? 14); [apply bind_ok_no_panic; [apply api_guarded_total|discriminate]|].
+  destruct (k =? 15); [|discriminate].
+  destruct (negb (Nlen p mod 33 =? 0)) eqn:EM; [discriminate|].
+  cbv zeta. apply bind_ok_no_panic; [|discriminate].
+  apply dec_chunks_no_panic.
+  pose proof (N.div_mod (Nlen p) 33 ltac:(lia)). lia.
+Qed.
+
+Lemma message_total_guarded bs s : known_c10_message bs = false -> decode_message bs <> Panic s.
+Proof.
+  intro K. destruct bs as [|k p]; [discriminate|].
+  rewrite decode_message_cons. apply message_body_total; intros ->; exact K.
+Qed.
+
+(* ------------------------------------------------------------------ *)
+(* a strict prefix of a block encoding is rejected (used by C12)       *)
+(* ------------------------------------------------------------------ *)
+
+Lemma dec_block_txs_unfold fuel n start bs :
+  dec_block_txs fuel n start bs =
+  if n =? 0 then Ok [] else
+  if Nlen bs <? start + 16 then Err else
+  do b_in <- sl 440 start (start + 4) bs;
+  do b_out <- sl 441 (start + 4) (start + 8) bs;
+  do b_ml <- sl 442 (start + 8) (start + 12) bs;
+  do b_pl <- sl 443 (start + 12) (start + 16) bs;
+  let total_len := be_dec b_in + be_dec b_out in
+  if two32 <=? total_len then Err else
+  let end_of_tx := start + TRANSACTION_SIZE + total_len * SLIP_SIZE + be_dec b_ml + be_dec b_pl * HOP_SIZE in
+  if Nlen bs <? end_of_tx then Err else
+  do tb <- sl 444 start end_of_tx bs;
+  match fuel with
+  | O => Panic 0
+  | S f =>
+    do t <- decode_tx tb;
+    do r <- dec_block_txs f (n - 1) end_of_tx bs;
+    Ok (t :: r)
+  end.
+Proof. destruct fuel; reflexivity. Qed.
+
+Lemma dec_block_txs_truncated : forall txs pre fuel j,
+  forallb wf_tx txs = true ->
+  j < Nlen (concat (map encode_tx txs)) ->
+  j < (N.of_nat fuel + 1) * 93 ->
+  dec_block_txs fuel (Nlen txs) (Nlen pre)
+    (firstn (N.to_nat (Nlen pre + j)) (pre ++ concat (map encode_tx txs))) = Err.
+Proof.
+  induction txs as [|t txs IH]; intros pre fuel j W Hj Hf.
+  - cbn [map concat] in Hj. rewrite Nlen_nil in Hj. lia.
+  - cbn [forallb] in W. apply andb_split in W as [Wt Wr].
+    cbn [map concat] in *. rewrite Nlen_app, (tx_size t Wt) in Hj.
+    destruct (tx_in_buffer t pre (concat (map encode_tx txs)) Wt) as (S1 & S2 & S3 & S4 & S5).
+    cbv zeta in S1, S2, S3, S4, S5.
+    set (bs := pre ++ encode_tx t ++ concat (map encode_tx txs)) in *.
+    assert (HL : Nlen bs = Nlen pre + size_tx t + Nlen (concat (map encode_tx txs))).
+    { subst bs. rewrite !Nlen_app, (tx_size t Wt). lia. }
+    set (K := N.to_nat (Nlen pre + j)).
+    assert (HK : N.of_nat K = Nlen pre + j) by (subst K; lia).
+    assert (HLt : Nlen (firstn K bs) = Nlen pre + j) by (rewrite Nlen_firstn; lia).
+    pose proof (size_tx_ge t) as Hge. unfold TRANSACTION_SIZE in Hge.
+    pose proof Wt as Wt'. unfold wf_tx in Wt'. split_and. unfold two32 in *.
+    rewrite dec_block_txs_unfold. rewrite Nlen_cons.
+    replace (1 + Nlen txs =? 0) with false by lia. rewrite HLt.
+    destruct (Nlen pre + j <? Nlen pre + 16) eqn:E16; [reflexivity|].
+    rewrite !sl_firstn_fits by lia.
+    unfold sl at 1 2 3 4. rewrite S1, S2, S3, S4. cbn [bind].
+    rewrite !be_dec_enc by (rewrite pow256_4; lia). cbv zeta.
+    replace (two32 <=? Nlen (t_from t) + Nlen (t_to t)) with false by (unfold two32; lia).
+    replace (Nlen pre + TRANSACTION_SIZE + (Nlen (t_from t) + Nlen (t_to t)) * SLIP_SIZE + Nlen (t_data t)
+             + Nlen (t_path t) * HOP_SIZE) with (Nlen pre + size_tx t)
+      by (unfold size_tx, TRANSACTION_SIZE, SLIP_SIZE, HOP_SIZE; lia).
+    destruct (Nlen pre + j <? Nlen pre + size_tx t) eqn:Eend; [reflexivity|].
+    rewrite sl_firstn_fits by lia.
+    unfold sl. rewrite S5. cbn [bind].
+    destruct fuel as [|fuel]; [lia|].
+    rewrite (tx_decode_encode t Wt). cbn [bind].
+    replace (1 + Nlen txs - 1) with (Nlen txs) by lia.
+    replace (Nlen pre + size_tx t) with (Nlen (pre ++ encode_tx t)) by (rewrite Nlen_app, (tx_size t Wt); reflexivity).
+    subst bs K.
+    replace (pre ++ encode_tx t ++ concat (map encode_tx txs))
+      with ((pre ++ encode_tx t) ++ concat (map encode_tx txs)) by now rewrite <- app_assoc.
+    replace (Nlen pre + j) with (Nlen (pre ++ encode_tx t) + (j - size_tx t))
+      by (rewrite Nlen_app, (tx_size t Wt); lia).
+    rewrite IH; [reflexivity|assumption|lia|].
+    replace (N.of_nat (S fuel) + 1) with (1 + (N.of_nat fuel + 1)) in Hf by lia.
+    rewrite N.mul_add_distr_r in Hf. lia.
+Qed.
+
+Lemma block_decode_fields_trunc tl b tb k :
+  Nlen tl = 4 -> wf_block b = true ->
+  389 <= N.of_nat k -> (k <= length (concat (block_fields tl b tb)))%nat ->
+  decode_block (firstn k (concat (block_fields tl b tb))) =
+  do txs <- dec_block_txs (length (firstn k (concat (block_fields tl b tb)))) (be_dec tl) BLOCK_HEADER_SIZE
+              (firstn k (concat (block_fields tl b tb)));
+  Ok (mkBlock (b_id b) (b_ts b) (b_prev b) (b_creator b) (b_merkle b) (b_sig b)
+        (b_graveyard b) (b_treasury b) (b_burnfee b) (b_difficulty b)
+        (b_avg_total_fees b) (b_avg_fee_per_byte b) (b_avg_nolan_rebroadcast b) (b_prev_unpaid b)
+        (b_avg_total_fees_new b) (b_avg_total_fees_atr b)
+        (b_avg_payout_routing b) (b_avg_payout_mining b) (b_avg_payout_treasury b)
+        (b_avg_payout_graveyard b) (b_avg_payout_atr b)
+        (b_total_payout_routing b) (b_total_payout_mining b) (b_total_payout_treasury b)
+        (b_total_payout_graveyard b) (b_total_payout_atr b)
+        (b_total_fees b) (b_total_fees_new b) (b_total_fees_atr b)
+        (b_fee_per_byte b) (b_total_fees_cumulative b)
+        txs
+        (if (be_dec tl =? 0) && negb ((b_id b =? 1) && beq (b_prev b) zero_hash) then BT_HEADER else BT_FULL)).
+Proof.
+  intros Htl W Hk1 Hk2. unfold wf_block in W. split_and.
+  match goal with H : forallb _ (block_nums b) = true |- _ =>
+    cbn [forallb block_nums] in H; rename H into Hn end.
+  split_and. unfold two64 in *.
+  pose proof (block_has_widths tl b tb Htl ltac:(assumption) ltac:(assumption) ltac:(assumption) ltac:(assumption)) as HW.
+  unfold decode_block. rewrite Nlen_firstn.
+  replace (N.min (N.of_nat k) (Nlen (concat (block_fields tl b tb))) <? BLOCK_HEADER_SIZE) with false
+    by (unfold BLOCK_HEADER_SIZE, Nlen; lia).
+  rewrite !sl_firstn_fits by lia.
+  fields_from 0%nat 33%nat.
+  rewrite !be_dec_enc by (rewrite pow256_8; lia).
+  reflexivity.
+Qed.
+
+Lemma block_prefix_rejected bt b k :
+  wf_block b = true -> (k < length (encode_block bt b))%nat ->
+  decode_block (firstn k (encode_block bt b)) = Err.
+Proof.
+  intros W Hk. pose proof (block_size bt b W) as HS. unfold size_block, BLOCK_HEADER_SIZE in HS.
+  destruct (N.of_nat k <? 389) eqn:E389.
+  - unfold decode_block, BLOCK_HEADER_SIZE. rewrite Nlen_firstn.
+    replace (N.min (N.of_nat k) (Nlen (encode_block bt b)) <? 389) with true by lia. reflexivity.
+  - rewrite encode_block_eq in *. pose proof W as W'. unfold wf_block in W'. split_and. unfold two32 in *.
+    destruct (bt =? BT_HEADER) eqn:Ebt; cbn [negb] in *.
+    + exfalso. unfold Nlen in HS. lia.
+    + rewrite block_decode_fields_trunc by (try assumption; try apply be_enc_Nlen; lia).
+      rewrite be_dec_enc by (rewrite pow256_4; lia).
+      set (tl := be_enc 4 (Nlen (b_txs b))) in *. set (tb := concat (map encode_tx (b_txs b))) in *.
+      assert (HW : has_widths (block_fields tl b tb) (block_widths (Nlen tb))).
+      { apply block_has_widths; try assumption. subst tl. apply be_enc_Nlen. }
+      destruct (fields_view _ _ HW 33%nat ltac:(cbn [length]; lia)) as (E1 & E2 & _).
+      cbn [nth skipn] in E1. change (concat (@nil (list N))) with (@nil N) in E1. rewrite app_nil_r in E1.
+      set (pre := concat (firstn 33 (block_fields tl b tb))) in *.
+      cbn [firstn sumN] in E2.
+      assert (Hlen : length (firstn k (concat (block_fields tl b tb))) = k) by (rewrite firstn_length; lia).
+      rewrite Hlen. rewrite E1.
+      replace BLOCK_HEADER_SIZE with (Nlen pre) by (rewrite E2; reflexivity).
+      assert (Hk' : k = N.to_nat (Nlen pre + (N.of_nat k - 389))) by lia.
+      rewrite Hk' at 2.
+      subst tb. rewrite dec_block_txs_truncated; [reflexivity|assumption| |].
+      * rewrite size_txs_concat by assumption. unfold Nlen in *. lia.
+      * pose proof (mul_ge_l (N.of_nat k + 1) 93 ltac:(lia)). lia.
+Qed.
+
+(* ------------------------------------------------------------------ *)
+(* size of what a decoder builds vs. length of its input               *)
+(* (no decoder reserves capacity from a wire count: every element      *)
+(* pushed was sliced from the buffer at an advancing offset)           *)
+(* ------------------------------------------------------------------ *)
+
+Lemma tx_decoded_size bs t : bytes_ok bs = true -> decode_tx bs = Ok t -> size_tx t <= Nlen bs.
+Proof.
+  intros Hb H. pose proof (tx_canonical_prefix bs t Hb H) as S.
+  apply slice_some in S as (_ & S & _). exact S.
+Qed.
+
+Lemma dec_block_txs_size bs : bytes_ok bs = true -> forall fuel n start txs,
+  start <= Nlen bs ->
+  dec_block_txs fuel n start bs = Ok txs ->
+  Nlen txs = n /\ start + fold_right (fun t a => size_tx t + a) 0 txs <= Nlen bs.
+Proof.
+  intros Hb. induction fuel as [|fuel IH]; intros n start txs Hs H; rewrite dec_block_txs_unfold in H.
+  - destruct (n =? 0) eqn:En; [inversion H; subst; cbn [fold_right]; split; [unfold Nlen; cbn [length]; lia|lia]|].
+    destruct (Nlen bs <? start + 16); [discriminate|].
+    inv_bind H. inv_bind H. inv_bind H. inv_bind H. cbv zeta in H.
+    destruct (two32 <=? be_dec x + be_dec x0); [discriminate|].
+    match type of H with context [Nlen bs <? ?e] => destruct (Nlen bs <? e); [discriminate|] end.
+    inv_bind H. discriminate.
+  - destruct (n =? 0) eqn:En; [inversion H; subst; cbn [fold_right]; split; [unfold Nlen; cbn [length]; lia|lia]|].
+    destruct (Nlen bs <? start + 16); [discriminate|].
+    inv_bind H. inv_bind H. inv_bind H. inv_bind H. cbv zeta in H.
+    destruct (two32 <=? be_dec x + be_dec x0); [discriminate|].
+    match type of H with context [Nlen bs <? ?e] => destruct (Nlen bs <? e) eqn:Eend; [discriminate|] end.
+    inv_bind H. inv_bind H. inv_bind H. inversion H; subst txs; clear H.
+    apply sl_ok in E3.
+    pose proof (slice_Nlen _ _ _ _ E3) as L3.
+    pose proof (tx_decoded_size _ _ (slice_ok _ _ _ _ Hb E3) E4) as Hsz.
+    match type of E5 with dec_block_txs _ _ ?e _ = _ => assert (Hend : e <= Nlen bs) by lia end.
+    destruct (IH _ _ _ Hend E5) as (Ln & Hsum).
+    split; [rewrite Nlen_cons; lia|]. cbn [fold_right].
+    unfold TRANSACTION_SIZE in *. lia.
+Qed.
+
+Lemma block_decoded_size bs b :
+  bytes_ok bs = true -> decode_block bs = Ok b -> size_block BT_FULL b <= Nlen bs.
+Proof.
+  intros Hb H. unfold decode_block, BLOCK_HEADER_SIZE in H.
+  destruct (Nlen bs <? 389) eqn:EL; [discriminate|].
+  do 33 (apply bind_ok_inv in H; destruct H as (? & _ & H)).
+  inv_bind H. inversion H; subst b; clear H.
+  assert (H389 : 389 <= Nlen bs) by lia.
+  destruct (dec_block_txs_size bs Hb _ _ _ _ H389 E) as (_ & Hsum).
+  unfold size_block, BLOCK_HEADER_SIZE. cbn [b_txs]. replace (BT_FULL =? BT_HEADER) with false by reflexivity.
+  exact Hsum.
+Qed.
+
+Lemma dec_chunks_len {A} site size (f : list N -> A) buf : forall k i l,
+  dec_chunks site size f k i buf = Ok l -> length l = k.
+Proof.
+  induction k as [|k IH]; intros i l H; cbn [dec_chunks] in H.
+  - now inversion H.
+  - inv_bind H. inv_bind H. inversion H; subst l. cbn [length]. f_equal. eauto.
+Qed.
+
+(* every vector of a decoded ghost chain has count entries and 36 + 82*count <= len *)
+Lemma ghost_decoded_size bs g : decode_ghost bs = Ok g ->
+  36 + 82 * Nlen (g_prehashes g) <= Nlen bs
+  /\ Nlen (g_prev_hashes g) = Nlen (g_prehashes g) /\ Nlen (g_block_ids g) = Nlen (g_prehashes g)
+  /\ Nlen (g_block_ts g) = Nlen (g_prehashes g) /\ Nlen (g_txs g) = Nlen (g_prehashes g)
+  /\ Nlen (g_gts g) = Nlen (g_prehashes g).
+Proof.
+  intro H. unfold decode_ghost in H.
+  inv_bind H. inv_bind H. inv_bind H. inv_bind H. inv_bind H. inv_bind H. inv_bind H.
+  inv_bind H. inv_bind H. inv_bind H. inv_bind H. inv_bind H. inv_bind H. inv_bind H. inv_bind H.
+  inversion H; subst g; clear H. cbn [g_prehashes g_prev_hashes g_block_ids g_block_ts g_txs g_gts].
+  repeat match goal with H : dec_chunks _ _ _ _ _ _ = Ok _ |- _ => apply dec_chunks_len in H end.
+  match goal with H : sl 903 _ _ _ = Ok _ |- _ => apply sl_ok, slice_Nlen in H; rename H into L903 end.
+  match goal with H : sl 914 _ _ _ = Ok _ |- _ => apply sl_ok, slice_some in H; destruct H as (_ & L914 & _) end.
+  match goal with H : sl 902 _ _ _ = Ok _ |- _ => apply sl_ok, slice_some in H; destruct H as (_ & L902 & _) end.
+  unfold Nlen in *. repeat split; lia.
 Qed.
